@@ -91,28 +91,47 @@ Lemma dom_parts :
   (forall d, In d (spec_defs p) -> is_ident (d_name d) = true /\ one_of (d_name d) known_heads = false /\
                               included d = serde_def d /\ (d_kind d = DTuple -> serde_def d = false)) /\
   (forall t, In t (input_types p) -> has_result2 (rty_of t) = false) /\
-  (forall f e, In f (all_fns p) -> In e (fn_emits f) ->
-      match e with
-      | PVar v => (exists t, lookup_param v (fn_params f) = Some t /\ bare_named t = true) \/
-                  (lookup_param v (fn_params f) = None /\ is_ident v = true /\ custom_name v = false)
-      | PStruct n => is_ident n = true
-      | POther => False end).
+  (forall f, In f (all_fns p) ->
+     forallb (fun e => match e with
+                       | PVar v => match lookup_param v (fn_params f) with
+                                   | Some t => bare_named t | None => is_ident v && negb (custom_name v) end
+                       | PStruct n => is_ident n
+                       | PVariant e v _ => is_ident e && is_ident v
+                       | PNew segs n => is_ident n && forallb is_ident segs
+                       | POther => false end) (fn_emits f) = true).
 Proof.
   unfold in_domain in Hdom.
   apply andb_true_iff in Hdom as [Hd0 Hev]. apply andb_true_iff in Hd0 as [Hd0 Hin]. apply andb_true_iff in Hd0 as [Hd0 Hdefs].
   apply andb_true_iff in Hd0 as [Hd0 _]. apply andb_true_iff in Hd0 as [Hty _].
-  rewrite forallb_forall in Hty, Hdefs, Hin, Hev. split; [exact Hty|]. split; [|split].
+  rewrite forallb_forall in Hty, Hdefs, Hin, Hev. split; [exact Hty|]. split; [|split; [|exact Hev]].
   - intros d Hd. specialize (Hdefs d Hd).
     apply andb_true_iff in Hdefs as [H1 Ht]. apply andb_true_iff in H1 as [H1 Heq]. apply andb_true_iff in H1 as [Hid Hh].
     split; auto. split; [apply negb_true_iff in Hh; exact Hh|]. split; [apply eqb_prop; auto|].
     intros Ek. rewrite Ek in Ht. apply negb_true_iff in Ht. auto.
   - intros t Ht. specialize (Hin t Ht). apply negb_true_iff in Hin. auto.
-  - intros f e Hf He. specialize (Hev f Hf). rewrite forallb_forall in Hev. specialize (Hev e He).
-    destruct e as [v|n|]; auto; [|discriminate].
-    destruct (lookup_param v (fn_params f)) as [t|]; [left; exists t; auto|].
-    right. apply andb_true_iff in Hev as [H1 H2]. apply negb_true_iff in H2. auto.
 Qed.
 
+(* outside the class of payload expressions the tool cannot type: what an emit's payload can be *)
+Lemma dom_events (K8 : kf_c07_payload_expr p = false) :
+  forall f e, In f (all_fns p) -> In e (fn_emits f) ->
+      match e with
+      | PVar v => (exists t, lookup_param v (fn_params f) = Some t /\ bare_named t = true) \/
+                  (lookup_param v (fn_params f) = None /\ is_ident v = true /\ custom_name v = false)
+      | PStruct n => is_ident n = true
+      | POther => False
+      | PVariant _ _ _ => False
+      | PNew segs n => segs = [] /\ is_ident n = true end.
+Proof.
+  intros f e Hf He. destruct dom_parts as (_ & _ & _ & Hev). specialize (Hev f Hf). rewrite forallb_forall in Hev. specialize (Hev e He).
+  assert (Hk : match e with PVariant _ _ _ => false | PNew (_ :: _) _ => false | _ => true end = true).
+  { unfold kf_c07_payload_expr in K8. apply existsb_false_Forall in K8. rewrite Forall_forall in K8. specialize (K8 f Hf).
+    apply existsb_false_Forall in K8. rewrite Forall_forall in K8. specialize (K8 e He).
+    destruct e as [| | | |[|]]; auto; discriminate. }
+  destruct e as [v|n| |e0 v0 st|segs n]; auto; try discriminate.
+  - destruct (lookup_param v (fn_params f)) as [t|]; [left; exists t; auto|].
+    right. apply andb_true_iff in Hev as [H1 H2]. apply negb_true_iff in H2. auto.
+  - destruct segs; [|discriminate]. apply andb_true_iff in Hev as [H1 _]. auto.
+Qed.
 
 Lemma lookup_same n : lookup p n = spec_lookup p n.
 Proof. unfold lookup, spec_lookup. rewrite find_files.
@@ -216,7 +235,7 @@ Qed.
 Lemma harvest_in s y : In s (root_strings p) -> In y (extract_type_names s) -> In y (harvest_roots p).
 Proof. intros Hs Hy. unfold harvest_roots. apply in_flat_map. exists s. auto. Qed.
 
-Lemma roots_H y : good y -> In y (command_roots p) \/ In y (event_roots p) -> In y (harvest_roots p).
+Lemma roots_H (K8 : kf_c07_payload_expr p = false) y : good y -> In y (command_roots p) \/ In y (event_roots p) -> In y (harvest_roots p).
 Proof.
   intros Hg [H|H].
   - unfold command_roots in H. apply in_flat_map in H as (c & Hc & Hy).
@@ -233,10 +252,12 @@ Proof.
       * apply Hrs. apply in_or_app. right. apply in_or_app. right. unfold cmd_ret. rewrite Er. left. auto.
       * apply (type_agree t y); auto. { apply (cmd_type_in c); auto. } apply ok_sub. auto.
   - unfold event_roots in H. apply in_flat_map in H as (f & Hf & Hy). apply in_flat_map in Hy as (e & He & Hy).
-    destruct dom_parts as (_ & _ & _ & Hev). specialize (Hev f e Hf He).
+    pose proof (dom_events K8) as Hev. specialize (Hev f e Hf He).
     assert (Hes : In (payload_type f e) (root_strings p)).
     { unfold root_strings. apply in_or_app. right. unfold events. apply in_flat_map. exists f. split; auto. apply in_map. auto. }
-    destruct e as [v|n|]; [| |contradiction].
+    destruct e as [v|n| |e0 v0 st|segs n]; [| |contradiction|contradiction|].
+    3: { destruct Hev as [-> Hid]. cbn [payload_names] in Hy. destruct Hy as [<-|[]]. apply (harvest_in _ _ Hes). cbn [payload_type].
+         apply (bare_agree n n Hid Hg). auto. }
     + destruct Hev as [(t & Hl & Hb)|(Hl & _ & _)]; [|cbn [payload_names] in Hy; rewrite Hl in Hy; contradiction].
       destruct (bare_facts t Hb) as (n & Hid & Hln & Hleaf).
       cbn [payload_names] in Hy. rewrite Hl, Hleaf in Hy. destruct Hy as [<-|[]].
@@ -246,13 +267,14 @@ Proof.
       apply (bare_agree n n Hev Hg). auto.
 Qed.
 
-Lemma events_T y : good y ->
+Lemma events_T (K8 : kf_c07_payload_expr p = false) y : good y ->
   (existsb (fun e => smemb y (ts_of e)) (events p) = true <-> In y (event_roots p)).
 Proof.
-  intros Hg. rewrite existsb_exists. unfold events, event_roots. destruct dom_parts as (_ & _ & _ & Hev). split.
+  intros Hg. rewrite existsb_exists. unfold events, event_roots. pose proof (dom_events K8) as Hev. split.
   - intros (s & Hs & Hy). apply smemb_true in Hy. apply in_flat_map in Hs as (f & Hf & Hs). apply in_map_iff in Hs as (e & <- & He).
     apply in_flat_map. exists f. split; auto. apply in_flat_map. exists e. split; auto.
-    specialize (Hev f e Hf He). destruct e as [v|n|]; [| |contradiction].
+    specialize (Hev f e Hf He). destruct e as [v|n| |e0 v0 st|segs n]; [| |contradiction|contradiction|].
+    3: { destruct Hev as [-> Hid]. cbn [payload_type] in Hy. apply (bare_agree n y Hid Hg) in Hy. subst y. left. auto. }
     + destruct Hev as [(t & Hl & Hb)|(Hl & Hid & Hcn)].
       2: { exfalso. cbn [payload_type] in Hy. rewrite lookup_sym_param, Hl in Hy. cbn [option_map] in Hy.
            apply (bare_agree v y Hid Hg) in Hy. subst y. destruct Hg as [Hc _]. congruence. }
@@ -262,7 +284,8 @@ Proof.
     + cbn [payload_type] in Hy. apply (bare_agree n y Hev Hg) in Hy. subst y. left. auto.
   - intros H. apply in_flat_map in H as (f & Hf & Hy). apply in_flat_map in Hy as (e & He & Hy).
     exists (payload_type f e). split; [apply in_flat_map; exists f; split; auto; apply in_map; auto|].
-    apply smemb_true. specialize (Hev f e Hf He). destruct e as [v|n|]; [| |contradiction].
+    apply smemb_true. specialize (Hev f e Hf He). destruct e as [v|n| |e0 v0 st|segs n]; [| |contradiction|contradiction|].
+    3: { destruct Hev as [-> Hid]. cbn [payload_names] in Hy. destruct Hy as [<-|[]]. cbn [payload_type]. apply (bare_agree n n Hid Hg). auto. }
     + destruct Hev as [(t & Hl & Hb)|(Hl & _ & _)]; [|cbn [payload_names] in Hy; rewrite Hl in Hy; contradiction].
       destruct (bare_facts t Hb) as (n & Hid & Hln & Hleaf).
       cbn [payload_names] in Hy. rewrite Hl, Hleaf in Hy. destruct Hy as [<-|[]].
@@ -271,7 +294,7 @@ Proof.
 Qed.
 
 (* ---------- the decidable premise of C07_exact holds ---------- *)
-Theorem agree_from_classes : agree_b p = true.
+Theorem agree_from_classes (K8 : kf_c07_payload_expr p = false) : agree_b p = true.
 Proof.
   unfold agree_b. apply andb_true_iff. split; [apply andb_true_iff; split|].
   - apply forallb_forall. intros n _. rewrite defined_same. apply eqb_reflx.
@@ -284,8 +307,8 @@ Proof.
     apply andb_true_iff. split; [apply andb_true_iff; split|].
     + apply smemb_iff_eqb. apply roots_T; auto.
     + destruct (smemb y (command_roots p) || smemb y (event_roots p)) eqn:E; [|reflexivity]. simpl.
-      apply smemb_true. apply roots_H; auto. apply orb_true_iff in E as [E|E]; apply smemb_true in E; auto.
-    + apply bool_iff_eqb. rewrite smemb_true. apply events_T; auto.
+      apply smemb_true. apply (roots_H K8); auto. apply orb_true_iff in E as [E|E]; apply smemb_true in E; auto.
+    + apply bool_iff_eqb. rewrite smemb_true. apply (events_T K8); auto.
 Qed.
 End Lift.
 
